@@ -324,7 +324,10 @@ func (r *Runner) Step(line string) {
 		}
 		r.g1pc, r.g1park = "want", nil
 		if r.swOwner == 2 {
-			r.St.AwaitSrc(from, "completed")
+			if !r.St.AwaitSrc(from, "completed") {
+				r.fail("disagreement", "harness: the store did not reach the expected gate", "want NotifySyncCompleted after the data sync returned")
+				return
+			}
 			r.g1queued = true
 			return
 		}
